@@ -184,6 +184,75 @@ fn cli_roundtrips(ctx: &Ctx) {
     });
 }
 
+/// Keyrings whose names are near twins of each other (case, prefix, inner space, Unicode
+/// composition): `-f X -t Y` must use exactly the keys stored under X and Y, whichever order the
+/// entries are listed in. Every key has the same password so a wrong pick still unlocks.
+fn cli_name_selection(ctx: &Ctx) {
+    use crate::cli::{keyring_text, Cmd, Exit, Ident, WorkDir};
+    let mut rng = Rng::fork(ctx.seed, "C01-cli-names");
+    let families: Vec<Vec<&str>> = vec![
+        vec!["alice", "Alice", "ALICE"],
+        vec!["bob", "bobby", "bo"],
+        vec!["al ice", "alice", "al  ice"],
+        vec!["caf\u{e9}", "cafe\u{301}", "cafe"],
+        vec!["K", "\u{212a}", "k"],
+        vec!["key", "Key", "[Key]x"],
+    ];
+    let nfam = ctx.tier.pick(3, families.len());
+    let start = (ctx.seed as usize) % families.len();
+    let seeds: Vec<u64> = (0..nfam * 2).map(|_| rng.next()).collect();
+    par_for(nfam * 2, crate::util::ncpu(), |j| {
+        let fam = &families[(start + j / 2) % families.len()];
+        let mut r = Rng::new(seeds[j]);
+        let mut ids: Vec<Ident> = fam.iter().map(|n| Ident::new(n, "pw", &mut r)).collect();
+        if j % 2 == 1 {
+            ids.reverse();
+        }
+        let wd = WorkDir::new("c01n");
+        let refs: Vec<(&Ident, bool)> = ids.iter().map(|i| (i, true)).collect();
+        wd.write("kr.txt", keyring_text(&refs).as_bytes());
+        let pt = r.bytes(1000);
+        wd.write("plain.bin", &pt);
+        for a in 0..ids.len() {
+            for b in 0..ids.len() {
+                if a == b && (a + j) % 2 == 0 {
+                    continue;
+                }
+                let (from, to) = (&ids[a], &ids[b]);
+                let e = Cmd::new(&wd.path, &["encrypt", "plain.bin", "-f", &from.name, "-t", &to.name, "-o", "c.ktl", "-k", "kr.txt", "--env-pass"]).pass("pw").run();
+                let d = Cmd::new(&wd.path, &["decrypt", "c.ktl", "-t", &to.name, "-o", "p.out", "-k", "kr.txt", "--env-pass"]).pass("pw").run();
+                ctx.eval();
+                if e.exit == Exit::Timeout || d.exit == Exit::Timeout {
+                    ctx.inconclusive("C01 cli names: timeout");
+                    continue;
+                }
+                let c = std::fs::read(wd.file("c.ktl")).unwrap_or_default();
+                let got = std::fs::read(wd.file("p.out")).unwrap_or_default();
+                let _ = std::fs::remove_file(wd.file("c.ktl"));
+                let _ = std::fs::remove_file(wd.file("p.out"));
+                let case = || json!({"names_in_keyring_order": ids.iter().map(|i| i.name.clone()).collect::<Vec<_>>(), "from": from.name, "to": to.name,
+                    "encrypt": format!("{} {}", e.exit.describe(), e.stderr_s()), "decrypt": format!("{} {}", d.exit.describe(), d.stderr_s())});
+                // decided by the specification under the DESIGNATED recipient's private key
+                match refspec::decode_key_file(&c, &to.sk, &to.pk) {
+                    Ok(x) if e.exit == Exit::Code(0) && x.body.complete() && x.body.plaintext() == pt => {
+                        if x.sender != from.pk {
+                            ctx.violation("C01:cli:file-carries-a-sender-key-other-than-the-one-named", case());
+                        } else if d.exit != Exit::Code(0) || got != pt {
+                            ctx.violation("C01:cli:named-recipient-cannot-decrypt", case());
+                        } else if !d.stderr_s().contains(&format!("File from: {}", from.name)) {
+                            ctx.violation("C01:cli:sender-reported-under-another-name", case());
+                        } else {
+                            ctx.seen("cli: near-twin names select exactly the named keys");
+                            ctx.distinct(&format!("cli-names|{}|{}|{}|{}", j, a, b, from.name));
+                        }
+                    }
+                    _ => ctx.violation("C01:cli:file-does-not-decrypt-under-the-named-recipient's-key", case()),
+                }
+            }
+        }
+    });
+}
+
 pub fn run(ctx: &Ctx) {
     ctx.rule(
         "small scope: every |P|<=L, chunk size c<=4, every composition of |P| into reads <=c, x write/ciphertext-read schedules \
@@ -275,7 +344,9 @@ pub fn run(ctx: &Ctx) {
     ctx.note("production_lengths", json!(lengths));
     if !crate::lib_only() {
         cli_roundtrips(ctx);
+        cli_name_selection(ctx);
     }
+    ctx.require("cli: near-twin names select exactly the named keys", 20);
     ctx.require("cli round trip ok: files, output paths that already hold longer content", 4);
     ctx.require("cli round trip ok: pipes", 4);
     ctx.require("cli round trip ok: files, sender and recipient are the same key", 2);
